@@ -229,3 +229,16 @@ func MsgText(m *dns.Msg) (string, bool) {
 	}
 	return hdr + "#" + strings.Join(qs, "+") + "#" + sec(m.Answer) + "#" + sec(m.Ns) + "#" + sec(m.Extra), ok
 }
+
+// ForEachNameField visits the string fields tagged domain-name / cdomain-name.
+func ForEachNameField(rr dns.RR, f func(get func() string, set func(string))) {
+	v := Flatten(reflect.ValueOf(rr).Elem())
+	t := v.Type()
+	for i := 0; i < t.NumField(); i++ {
+		tag := t.Field(i).Tag.Get("dns")
+		if (tag == "domain-name" || tag == "cdomain-name") && t.Field(i).Type.Kind() == reflect.String {
+			fv := v.Field(i)
+			f(func() string { return fv.String() }, func(s string) { fv.SetString(s) })
+		}
+	}
+}
